@@ -9,9 +9,9 @@ func init() {
 			"(A9) NewStaticWarning takes File/RowNumber/RowContent/HeaderContent from the file's accessors, the accessors return the corresponding fields, and rowNumber is incremented by exactly one only on the path that hands out a row (first data row = 1). " +
 			"Not decided: which rows count as invalid (C01/C03 cover the reject conditions' targets).",
 		Rules: []Rule{
-			{Name: "REJECT", Doc: "reject paths have no persistent effects", MinInstances: 10, Run: runRejectInert},
+			{Name: "REJECT", Doc: "reject paths have no persistent effects", MinInstances: 7, Run: runRejectInert},
 			{Name: "CACHE", Doc: "trip cache coherence", MinInstances: 1, Run: runCacheCoherence},
-			{Name: "WARN", Doc: "G9 reused-buffer escape, A9 warning fields and row numbering", MinInstances: 8, Run: runWarningRules},
+			{Name: "WARN", Doc: "G9 reused-buffer escape, A9 warning fields and row numbering", MinInstances: 5, Run: runWarningRules},
 		},
 	})
 }
